@@ -84,6 +84,7 @@ func blankedDump(steps pipeline.Steps) string {
 func runC06(c *engine.Ctx) {
 	p := c.Plan
 	w := &signWorld{c: c, features: map[string]bool{}, yamlSafe: true}
+	w.oddEnvNames = c.Plan.Draw(3, "cfg:odd-env-names") == 2
 	kp := pickKey(p)
 	w.rich = p.Draw(4, "cfg:rich") == 3
 	repoURL := []string{"git@github.com:org/repo.git", "", "https://x/y"}[p.Draw(3, "cfg:repo")]
